@@ -1351,6 +1351,50 @@ def replay_c11_best(inp: dict):
     return bad, "\n".join(msgs) or "the replayed best-states call satisfies C11 on this input"
 
 
+def replay_c13_greedy(inp: dict):
+    """C13 replay of an expected-greedy case (plain or randomised): the recorded sampled games through a replayable generator,
+    `get_greedy_rewards` run again, judged step by step: no repeats, row i = fresh gaps of the first i coalitions, every extension
+    minimises the mean gap among the remaining candidates (randomised: within the code's EPSILON = 1e-6 of the minimum)."""
+    import random as _random
+    from incomplete_cooperative.icg_gym import ICG_Gym
+    from incomplete_cooperative.run.greedy import get_greedy_rewards
+    BOUNDS, Coalition, minimal_game_coalitions, ICG, gaps = _mods()
+    n, steps, reps, procs, cls, gapname = inp["n"], inp["max_steps"], inp["repetitions"], inp["processes"], inp["computer"], inp["gap"]
+    sampled = inp["sampled_games"]
+    randomized = bool(inp.get("randomized"))
+    fresh = Fresh(n, cls, gapname)
+    minimal = G.minimal_ids(n)
+    explorable = [c for c in range(2 ** n) if c not in minimal]
+    tables = [sampled[0], sampled[0]] + list(sampled)
+    env = ICG_Gym(ICG(n, BOUNDS[cls]), ListGen(n, tables), minimal_game_coalitions(n), fresh.gapf, done_after_n_actions=steps)
+    try:
+        with warnings.catch_warnings():
+            warnings.simplefilter("ignore")
+            rows, acts = get_greedy_rewards(env, steps, reps, fresh.gapf, procs, _random.Random(inp["seed"]) if randomized else None)
+    except Exception as e:       # noqa: BLE001
+        in_domain = steps <= len(explorable)
+        return in_domain, f"get_greedy_rewards raised {type(e).__name__}: {e}" + ("" if in_domain else " (step limit beyond the explorable coalitions: outside the domain)")
+    rows = [[float(x) for x in r] for r in rows]
+    acts = [int(a) for a in acts]
+
+    def col(s_):
+        return [fresh.gap(t, set(minimal) | set(s_)) for t in sampled]
+    if len(acts) != steps or len(set(acts)) != len(acts) or not set(acts) <= set(explorable):
+        return True, f"sequence {acts}: wrong length, a repeated coalition, or a coalition that is not explorable"
+    for i in range(steps + 1):
+        if rows[i] != col(acts[:i]):
+            return True, f"row {i} = {rows[i]} ≠ fresh gaps {col(acts[:i])} of the first {i} coalitions {acts[:i]} on the sampled games"
+    for i in range(steps):
+        rem = [c for c in explorable if c not in acts[:i]]
+        ms = {c: float(np.mean(np.array(col(acts[:i] + [c])))) for c in rem}
+        slack = 1e-6 * (1 + 1e-9) + 1e-15 if randomized else 0.0
+        if ms[acts[i]] - min(ms.values()) > slack or (randomized and ms[acts[i]] - min(ms.values()) >= slack):
+            best = min(rem, key=lambda c: ms[c])
+            return True, (f"reveal #{i + 1} is coalition {acts[i]} with mean gap {ms[acts[i]]} after {acts[:i]}, but coalition {best} "
+                          f"reaches {ms[best]}")
+    return False, "the replayed expected-greedy search satisfies C13 on this input"
+
+
 def replay(prop: str, payload: dict):
     """Re-run a C12 replay whose input names a real `ModelInstance` run; → (violated, message)."""
     inp = payload.get("input") or {}
@@ -1358,6 +1402,8 @@ def replay(prop: str, payload: dict):
         return replay_c11_search(inp)
     if prop == "C11" and "sampled_games" in inp and "max_steps" in inp:
         return replay_c11_best(inp)
+    if prop == "C13" and "sampled_games" in inp and "max_steps" in inp:
+        return replay_c13_greedy(inp)
     if prop != "C12" or inp.get("source") != "ModelInstance.get_env":
         return False, "this replay holds the complete failing input; no re-runner for it"
     from incomplete_cooperative.evaluation import evaluate
